@@ -1009,4 +1009,62 @@ def w_ods(repo, tier):
     return a
 
 
-WALKERS = [w_docx, w_odt, w_odp, w_pptx, w_html, w_epub, w_xlsx, w_xls, w_ods]
+# ======================================================== iterate_tables plumbing ==
+def w_iter(repo, tier):
+    """every `iterate_tables` of data_types.py yields, in order, exactly the tables stored on the object / on its units
+    (slides, pages, chapters) or the sheet objects themselves -- for 0..3 stored tables (BOUNDED: unit lists of length 0..2)."""
+    import ast as _ast
+    DTYPES = "sharepoint2text/parsing/extractors/data_types.py"
+    run = Run(DTYPES, repo, lambda reg: None)
+    ex = run.ex
+    tally = Tally("C13/data_types.py::*.iterate_tables", ("yields-the-stored-tables-in-order-none-lost-none-invented",))
+    classes = sorted(q.split(".")[0] for q in run.mod.functions if q.endswith(".iterate_tables") and q.count(".") == 1 and not q.startswith(("ExtractionInterface", "TableInterface")))
+    for cls in classes:
+        fnode = run.mod.functions[f"{cls}.iterate_tables"]
+        attrs = sorted({n.attr for n in _ast.walk(fnode) if isinstance(n, _ast.Attribute) and isinstance(n.value, _ast.Name) and n.value.id == "self"})
+        for layout in ([], [1], [2], [1, 2], [0, 1], [2, 0, 1]):
+            st = State()
+            grids, units = [], []
+            for n in layout:
+                gs = [VRef(st.alloc(HeapObj("list", [], fresh=False), ex.refs)) for _ in range(n)]
+                grids += gs
+                units.append(VRef(st.alloc(HeapObj("obj", {"tables": VRef(st.alloc(HeapObj("list", gs, fresh=False), ex.refs))}, "Unit", fresh=False), ex.refs)))
+            fields = {}
+            for a in attrs:
+                if a == "tables":
+                    fields[a] = VRef(st.alloc(HeapObj("list", grids, fresh=False), ex.refs))
+                elif a == "sheets":
+                    fields[a] = VRef(st.alloc(HeapObj("list", units, fresh=False), ex.refs))
+                else:
+                    fields[a] = VRef(st.alloc(HeapObj("list", units, fresh=False), ex.refs))
+            me = VRef(st.alloc(HeapObj("obj", fields, cls, fresh=False), ex.refs))
+            shape = {"class": cls, "tables_per_unit": layout}
+            try:
+                rets, raises = run.call(f"{cls}.iterate_tables", {"self": me}, st)
+            except Unsupported as e:
+                tally.record(tally.prefix and list(tally.c)[0], "unknown", shape, [], f"OUT-OF-SUBSET {e}"[:200])
+                continue
+            ok = not raises and len(rets) >= 1
+            for (s, _v) in rets:
+                ys = s.yielded
+                if not attrs:                       # formats without tables: nothing is yielded
+                    ok = ok and len(ys) == 0
+                elif "sheets" in attrs:
+                    ok = ok and [getattr(y, "ref", None) for y in ys] == [u.ref for u in units]
+                else:
+                    want = [g.ref for g in grids]
+                    got = []
+                    for y in ys:
+                        o = s.obj(y.ref) if isinstance(y, VRef) else None
+                        if o is not None and o.kind == "obj" and o.cls == "TableData" and isinstance(o.data.get("data"), VRef):
+                            got.append(o.data["data"].ref)
+                        elif o is not None and isinstance(y, VRef):
+                            got.append(y.ref)       # classes whose stored tables are table objects (OdtTable, RtfTable)
+                        else:
+                            got.append(None)
+                    ok = ok and got == want
+            tally.record(list(tally.c)[0], "proved" if ok else "refuted", shape, [], "yielded tables differ from the stored ones")
+    return {"obligations": tally.obligations(DTYPES)}
+
+
+WALKERS = [w_docx, w_odt, w_odp, w_pptx, w_html, w_epub, w_xlsx, w_xls, w_ods, w_iter]
